@@ -165,7 +165,9 @@ def lshift_case(rng):
         a[0] = ladder[0]
     over = rng.choice([["b", False], ["i", 1]]) if top >= 1 else ["b", False]
     return {"op": "lshift", "a": a, "over": over, "overwrite": rng.random() < 0.8,
-            "vals": rand_vec(rng, rng.randint(0, 3), ladder[:rng.randint(1, 4)] + ([["N"]] if rng.random() < 0.3 else [])),
+            # (now and then a str among the appended values: the kind becomes object at that value, a None AFTER it still counts)
+            "vals": rand_vec(rng, rng.randint(0, 3), ladder[:rng.randint(1, 4)] + ([["N"]] if rng.random() < 0.3 else []))
+                    + ([["s", "x"], rng.choice([["N"], ["i", 4]])][:rng.randint(1, 2)] if rng.random() < 0.2 else []),
             # the right operand as a list, or as a VECTOR whose schema is wider than the values it holds now (a slice of a
             # nullable / wider vector that left the None / the wide value behind): the result is typed by the appended VALUES
             "right": rng.choice(["list", "list", "vec_nullable", "vec_wider"])}
